@@ -63,3 +63,13 @@ def judge(ctx, c, v, b, r, tag=""):
                                            "bash": {"stdout": c["obs"]["out"], "status": c["obs"]["code"]},
                                            "reproduce": "tsh -t batch; run the .bat under cmd.exe (or spec/CmdExe.tla)"}, s)
     return True
+
+
+def check_blind(ctx, n):
+    """a script line outside the modelled fragment makes the model blind for that program: a few are expected (builtins), many mean that the
+    converter emits something the model does not know - not a verdict either way"""
+    from vlib import Infra
+    blind = ctx.dropped.get("cmd-unsupported", 0)
+    if blind > max(25, n // 20):
+        raise Infra("%d of %d Batch scripts contain lines outside the cmd.exe model (e.g. %r): extend harness/batparse.go and spec/CmdExe.tla"
+                    % (blind, n, ctx.notes.get("unsupported_lines", [])[:2]))
